@@ -168,6 +168,20 @@ pub fn run(ctx: &Ctx) -> Outcome {
             let m = RefMsg::Data { offset: 0x0010, data: vec![] };
             let w = check_message(&m, rep);
             inj.note(w, &m, rep);
+            // chunks that carry a configuration block (exact, and with one byte changed): still just chunks
+            for block in refs::BLOCKS.iter() {
+                for offset in [0u16, 16, 0xFFF0] {
+                    for i in 0..=16usize {
+                        let mut data = block.to_vec();
+                        if i < 16 {
+                            data[i] = data[i].wrapping_add(1);
+                        }
+                        let m = RefMsg::Data { offset, data };
+                        let w = check_message(&m, rep);
+                        inj.note(w, &m, rep);
+                    }
+                }
+            }
             // the longest chunks filled with one extreme value under an offset made of the same value: the largest byte
             // sums there are, unsigned (FF) and signed (80 = -128, 7F = +127)
             for len in 250..=255usize {
